@@ -104,7 +104,8 @@ FileOf(tag, ops) == LET st == WRun([lines |-> <<tag>>, cur |-> <<>>], ops)
 (* token j), success so far, events (deviations of the real reader that the  *)
 (* transcription predicts), fields read so far.                              *)
 
-S0 == [i |-> 1, j |-> 2, ok |-> TRUE, ev |-> {}, at |-> "", o |-> [z0 |-> 0]]
+\* ntot: number of tokens of the file (bound of every count that the file can justify)
+S0n(n) == [i |-> 1, j |-> 2, ok |-> TRUE, ev |-> {}, at |-> "", ntot |-> n, o |-> [z0 |-> 0]]
 Fail(s, why) == [s EXCEPT !.ok = FALSE, !.ev = @ \cup {why}]
 FailAt(s, why, f) == [s EXCEPT !.ok = FALSE, !.ev = @ \cup {why}, !.at = f]   \* f: the field being read
 Res(s, o) == [ok |-> s.ok, ev |-> s.ev, at |-> s.at, o |-> IF s.ok THEN o ELSE <<>>]
@@ -113,9 +114,14 @@ Ev(s, e)     == [s EXCEPT !.ev = @ \cup {e}]
 Put(s, f, v) == [s EXCEPT !.o = (f :> v) @@ @]
 Gd(s, f, d)  == IF f \in DOMAIN s.o THEN s.o[f] ELSE d
 
-\* _fileOpenRead: the first word must be the class name (a name of two words can never match)
-HeaderOK(L, tag) == /\ Len(L) >= 1 /\ Len(L[1]) >= 1 /\ Len(tag) = 1 /\ L[1][1] = tag[1]
-                    /\ (Len(L) > 1 \/ Len(L[1]) > 1)          \* "cannot be end of file already"
+\* _fileOpenRead: the first word must be the class name (a name of two words can never match); "return is.good()":
+\* the stream must not be at end of file already, which happens when nothing (not even a newline) follows the name.
+\* nl: the file ends with a newline
+HeaderOK(L, tag, nl) == /\ Len(L) >= 1 /\ Len(L[1]) >= 1 /\ Len(tag) = 1 /\ L[1][1] = tag[1]
+                        /\ (nl \/ Len(L) > 1 \/ Len(L[1]) > 1)
+
+RECURSIVE NTokOf(_)
+NTokOf(L) == IF L = <<>> THEN 0 ELSE Len(Head(L)) + NTokOf(Tail(L))
 
 RECURSIVE NextWord(_, _, _)
 NextWord(L, i, j) ==
@@ -124,9 +130,9 @@ NextWord(L, i, j) ==
   ELSE IF IsComment(L[i][j]) THEN NextWord(L, i + 1, 1)
   ELSE [found |-> TRUE, i |-> i, j |-> j + 1, t |-> L[i][j]]
 
-RemainingTokens(L, s) ==
-  LET F[k \in 0..Len(L)] == IF k = 0 THEN 0 ELSE F[k-1] + (IF k < s.i THEN 0 ELSE IF k = s.i THEN Max2(0, Len(L[k]) - s.j + 1) ELSE Len(L[k]))
-  IN F[Len(L)]
+\* what the file can still provide (bounded from above by its number of tokens: cheap, and enough to tell a count
+\* that the file justifies from one that it does not)
+RemainingTokens(L, s) == s.ntot
 
 \* kind "i": int, "d": double, "s": string.  Value read from one word.
 WordVal(kind, t) == CASE kind = "i" -> IntOf(t) [] kind = "d" -> t [] OTHER -> t
@@ -723,6 +729,7 @@ R_PolyLine(L, md, s0) ==
   LET s1 == RdI(L, md, s0, "np") IN
   IF ~s1.ok THEN s1
   ELSE IF s1.o.np < 0 THEN Fail(s1, "badCount")
+  ELSE IF s1.o.np = 0 THEN (IF md = "real" THEN Put(Ev(s1, "emptyPolyline"), "xy", <<>>) ELSE Fail(s1, "badCount"))   \* cannot be written again
   ELSE R_Points(L, md, Put(LoopGuard(L, md, Alloc(L, md, s1, s1.o.np), s1.o.np), "xy", <<>>), 1, s1.o.np)
 R_PolyElem(L, md, s0) == R_PolyLine(L, md, RdD(L, md, RdD(L, md, s0, "zmin"), "zmax"))
 RECURSIVE R_PolyElems(_, _, _, _, _)
@@ -772,7 +779,7 @@ WriteOps(c, o) ==
     [] c = "NeighImage" -> W_NeighImage(o)   [] c = "Vario" -> W_Vario(o)
     [] c = "Polygons" -> W_Polygons(o)       [] c = "PolyLine2D" -> W_PolyLine2D(o)
 
-ReadBody(c, L, md) ==
+ReadBody(c, L, md) == LET S0 == S0n(NTokOf(L)) IN
   CASE c = "Db" -> R_Db(L, md, S0)                   [] c = "DbGrid" -> R_DbGrid(L, md, S0)
     [] c = "Table" -> R_Table(L, md, S0)             [] c = "Model" -> R_Model(L, md, S0)
     [] c = "NeighUnique" -> R_NeighUnique(L, md, S0) [] c = "NeighBench" -> R_NeighBench(L, md, S0)
@@ -807,7 +814,8 @@ Build(c, st, v) ==
 
 FileW(c, o) == FileOf(Tag(c), WriteOps(c, o))
 \* createFromNF: header check, then the class reader
-ReadF(c, L, md) == IF ~HeaderOK(L, Tag(c)) THEN [ok |-> FALSE, ev |-> {"badHeader"}, at |-> "header", o |-> <<>>] ELSE ReadBody(c, L, md)
+ReadFnl(c, L, md, nl) == IF ~HeaderOK(L, Tag(c), nl) THEN [ok |-> FALSE, ev |-> {"badHeader"}, at |-> "header", o |-> <<>>] ELSE ReadBody(c, L, md)
+ReadF(c, L, md) == ReadFnl(c, L, md, TRUE)
 
 Radices(c, si) == LET doms == Doms(c, Structs(c)[si]) IN [k \in DOMAIN doms |-> Len(doms[k])]
 \* abstract instance number dg (one digit per value slot) of structure si of class c
@@ -865,14 +873,14 @@ FaultList(L, c) ==
   \o [l \in 1..(Len(L) - 1) |-> [kind |-> "dropline", k |-> l + 1, t |-> ""]]
 
 \* events of the transcribed reader that are memory-unsafe or unbounded in the real code
-UnsafeEvents == {"vecOverflow", "allocNegative", "allocHuge", "allocUnbounded", "loopUnbounded", "writeUnsized", "useAfterClear", "gridSizeMismatch", "badEnum", "badDims"}
+UnsafeEvents == {"vecOverflow", "allocNegative", "allocHuge", "allocUnbounded", "loopUnbounded", "writeUnsized", "useAfterClear", "gridSizeMismatch", "badEnum", "badDims", "emptyPolyline"}
 \* events by which the transcribed reader accepts what the intended reader refuses
 LenientEvents == {"eofDefault", "wordAsZero", "dbPartIgnored", "uninitReturn"}
 
 \* Classification of a faulty file: verdict of the intended reader, prediction of the transcribed one, first divergence
-Classify(c, L) ==
-  LET ri == ReadF(c, L, "ideal")
-      rr == ReadF(c, L, "real")
+Classify(c, L, nl) ==
+  LET ri == ReadFnl(c, L, "ideal", nl)
+      rr == ReadFnl(c, L, "real", nl)
   IN [verdict |-> IF ri.ok THEN "MaySucceed" ELSE "MustFail",
       io |-> ri.o, iat |-> ri.at,
       rok |-> rr.ok, rat |-> rr.at, rev |-> rr.ev,
